@@ -7,3 +7,5 @@ import Gittuf.Props.C11b
 #print axioms Gittuf.World.C11_entry_monotone
 #print axioms Gittuf.World.C11_entry_monotone_B
 #print axioms Gittuf.walkSane_of_B
+#print axioms Gittuf.World.F64_witness
+#print axioms Gittuf.World.F65_witness
